@@ -14,6 +14,18 @@ BASELINE_OFF = (
 
 # id -> (level, technique, level text, level note, design ref)
 T = {
+    "C04": (
+        "model_checking",
+        "exhaustive option lattice on the real solvers + deviation-bounded enumeration of failing inner linear solves (complete fault tree per run), independent reference divergence/cost",
+        "Every configuration of the option lattice (grids incl. single-cell axes x voxel sizes x mass classes x Newton/Bregman/adaptive Bregman x "
+        "3 L1 x 5 mobility modes x 5 formulation/back-end pairs x Anderson x cell weight; quick: covering design, thorough: full product) is executed; "
+        "the flat solution is captured and checked against an independently written divergence, RT0 reconstruction and cost. For the status "
+        "clause each base run (x num_iter x tolerance regimes) is expanded by its complete fault tree: every in-loop linear solve, in turn, raises; "
+        "bound 2 is explored and shown to add nothing (the loop ends at the first failure). Every execution is on the implementation; a faulted "
+        "result is compared with the fault-free run limited to the completed iterations.",
+        "Trusted: props/_wass.py reference operators; grid connectivity (C07), quadrature tables (C15). Tolerance for mass balance is relative to the largest term of the linear systems solved (backward-error reading of 'solver precision'). PETSc back-end absent. Grids <= 12 cells.",
+        "DESIGN.md §3 C04",
+    ),
     "C03": (
         "model_checking",
         "explicit-state search over the hidden state of live Geometry objects (fixpoint) + all call sequences up to a length + exhaustive lattice with complete impulse bases",
